@@ -770,10 +770,11 @@ def tlaps_proof(pid):
         t = time.time()
         try:
             # back-end time limits stretched: a loaded machine must not turn a 0.2 s obligation into a failure
-            p = subprocess.run(["tlapm", "--stretch", "4", cfg["module"]], cwd=d, stdout=subprocess.PIPE, stderr=subprocess.STDOUT, text=True, timeout=900)
+            penv = dict(os.environ, TMPDIR=d)      # back-end temporary files stay inside the scratch directory
+            p = subprocess.run(["tlapm", "--stretch", "4", cfg["module"]], cwd=d, env=penv, stdout=subprocess.PIPE, stderr=subprocess.STDOUT, text=True, timeout=900)
             if not re.search(r"All (\d+) obligations? proved", p.stdout):
                 shutil.rmtree(os.path.join(d, ".tlacache"), ignore_errors=True)
-                p = subprocess.run(["tlapm", "--stretch", "12", cfg["module"]], cwd=d, stdout=subprocess.PIPE, stderr=subprocess.STDOUT, text=True, timeout=1500)
+                p = subprocess.run(["tlapm", "--stretch", "12", cfg["module"]], cwd=d, env=penv, stdout=subprocess.PIPE, stderr=subprocess.STDOUT, text=True, timeout=1500)
         except (subprocess.TimeoutExpired, FileNotFoundError) as e:
             return {"module": "spec/tlaps/" + cfg["module"], "outcome": f"not run ({type(e).__name__}; not relied upon)"}
         m = re.search(r"All (\d+) obligations? proved", p.stdout)
